@@ -21,7 +21,7 @@ It is claimed to hold: {quant}
 TWO independent source changes (A and B) to files under `{wt}/rsome/`, each of which
 1. makes rsome violate the property above for some inputs / call histories,
 2. keeps the package importable and keeps the repository's own test suite passing (all tests that pass without the
-   change must still pass): `cd {wt} && /venv/bin/python -m pytest -q -p no:cacheprovider --timeout=900 -n 6 tests`
+   change must still pass): `cd {wt} && /venv/bin/python -m pytest -q -p no:cacheprovider --timeout=900 -n 6 tests --ignore=tests/test_dro_affine.py` followed by `cd {wt} && /venv/bin/python -m pytest -q -p no:cacheprovider --timeout=900 tests/test_dro_affine.py` (that file has random test ids, xdist cannot collect it)
    (about 3-8 minutes; run the most relevant test files first, the full suite once per change before you finish; the
    tests listed as flaky `tests/test_dro_affine.py::test_mat_roaffine_mul[array11-...]`,
    `test_random_adaptive_array_mul[...]`, `test_roaffine_mat_mul[array11-...]` with random float ids may be ignored),
@@ -42,6 +42,9 @@ answer over ones that raise exceptions.
 * `_seed/demo_A.py`, `_seed/demo_B.py` - run as `cd {wt} && /venv/bin/python _seed/demo_A.py`.
 * `_seed/notes.md` - for each change: which mechanism it breaks, what is needed for it to manifest, the exact commands
   you ran and their outcome (test suite summary line with the change applied; demo exit codes with and without).
+Every demo must start with `import sys, os; sys.path.insert(0, os.path.dirname(os.path.dirname(os.path.abspath(__file__))))`
+so that it imports THIS worktree's rsome (print `rsome.__file__` to be sure) - a script inside `_seed/` would otherwise
+import the copy installed in the venv.
 Leave the worktree with NO change applied at the end (`git status` clean except `_seed/`).
 Solvers available through rsome: default (`model.solve()`, LP/MILP), `from rsome import eco_solver` (ECOS: LP/SOCP/exp
 cone), `from rsome import grb_solver` (small models only), `from rsome import ort_solver`.  Always pass `display=False`.
